@@ -827,6 +827,7 @@ public:
 		else if constexpr (1 == nrBlocks) {
 			if (sign()) {
 				++_block[MSU];
+				_block[MSU] &= MSU_MASK; // pattern: 1.11.111 = snan steps modulo 2^nbits
 			}
 			else {
 				// positive range
@@ -869,6 +870,7 @@ public:
 				}
 				if (carry) {
 					++_block[MSU];
+					_block[MSU] &= MSU_MASK; // pattern: 1.11.111 = snan steps modulo 2^nbits
 				}
 			}
 			else {
